@@ -24,10 +24,16 @@ def sh(cmd, **kw):
     return subprocess.run(cmd, shell=True, capture_output=True, text=True, **kw)
 
 
+import threading
+
+_WT_LOCK = threading.Lock()  # concurrent `git worktree add/remove/prune` race on .git/worktrees
+
+
 def make_wt():
     wt = tempfile.mkdtemp(prefix="nssmon_wt.", dir="/tmp")
     os.rmdir(wt)
-    r = sh(f"git -C /repo worktree add --detach {wt} HEAD")
+    with _WT_LOCK:
+        r = sh(f"git -C /repo worktree add --detach {wt} HEAD")
     if r.returncode:
         raise RuntimeError(r.stderr)
     shutil.copy("/repo/src/nuspacesim/_version.py", f"{wt}/src/nuspacesim/_version.py")
@@ -36,10 +42,11 @@ def make_wt():
 
 
 def drop_wt(wt):
-    sh(f"git -C /repo worktree remove --force {wt}")
-    shutil.rmtree(wt, ignore_errors=True)
+    with _WT_LOCK:
+        sh(f"git -C /repo worktree remove --force {wt}")
+        shutil.rmtree(wt, ignore_errors=True)
+        sh("git -C /repo worktree prune")
     shutil.rmtree(os.path.join(ROOT, ".build", wt.replace("/", "_")), ignore_errors=True)
-    sh("git -C /repo worktree prune")
 
 
 def run_one(m, tier, tests):
